@@ -14,6 +14,12 @@ fn case_of(usage: &str, names: &[String]) -> Value {
     json!({"use": usage, "names": names})
 }
 
+const PTYPES: u64 = 10;
+
+fn prop_case(names: &[String], ptype: u64) -> Value {
+    json!({"use": "prop", "names": names, "ptype": ptype})
+}
+
 pub fn doc_of(c: &Value) -> Option<(Value, Vec<String>)> {
     let usage = c["use"].as_str()?;
     let names: Vec<String> = c["names"].as_array()?.iter().map(|n| n.as_str().map(|s| s.to_string())).collect::<Option<Vec<_>>>()?;
@@ -28,11 +34,35 @@ pub fn doc_of(c: &Value) -> Option<(Value, Vec<String>)> {
     }
     let doc = match usage {
         "prop" => {
+            // the property's schema and requiredness vary with `ptype`: every serde
+            // attribute path of struct fields is exercised with every name
+            let ptype = c["ptype"].as_u64().unwrap_or(0);
+            let (schema, required): (Value, bool) = match ptype {
+                0 => (json!({"type": "integer"}), true),
+                1 => (json!({"type": "string"}), false),
+                2 => (json!({"type": "object", "additionalProperties": {"type": "string"}}), false),
+                3 => (json!({"type": "array", "items": {"type": "integer"}}), false),
+                4 => (json!({"type": ["string", "null"]}), true),
+                5 => (json!({"type": "object"}), false),
+                6 => (json!({"type": "boolean", "default": true}), false),
+                7 => (json!({"type": "object", "properties": {"inner": {"type": "integer"}}}), false),
+                8 => (json!({"type": "array", "items": {"type": "string"}, "uniqueItems": true}), false),
+                9 => (json!({"type": "string", "default": "dflt"}), false),
+                _ => return None,
+            };
             let mut props = Map::new();
+            let mut req = vec![];
             for (i, n) in names.iter().enumerate() {
-                props.insert(n.clone(), if i % 2 == 0 { json!({"type": "integer"}) } else { json!({"type": "string"}) });
+                if i == 0 {
+                    props.insert(n.clone(), schema.clone());
+                    if required {
+                        req.push(n.clone());
+                    }
+                } else {
+                    props.insert(n.clone(), if i % 2 == 0 { json!({"type": "integer"}) } else { json!({"type": "string"}) });
+                }
             }
-            json!({"definitions": {"Holder": {"type": "object", "properties": props, "required": [names[0]]}}})
+            json!({"definitions": {"Holder": {"type": "object", "properties": props, "required": req}}})
         }
         "enum" => json!({"definitions": {"Holder": {"type": "string", "enum": names}}}),
         "def" => {
@@ -101,21 +131,32 @@ impl Property for C08 {
         let mut out = vec![];
         for n in &names {
             for u in uses {
-                out.push(case_of(u, &[n.clone()]));
+                if u == "prop" {
+                    for t in 0..PTYPES {
+                        out.push(prop_case(&[n.clone()], t));
+                    }
+                } else {
+                    out.push(case_of(u, &[n.clone()]));
+                }
             }
         }
         out.extend(gen::draw(seed, "C08-rand", tier.pick(3000, 150000), move |g: &mut G| {
             let u = *g.pick(&["prop", "enum", "def", "variant"]);
             let n = if g.chance(1, 2) { odd_name(g) } else { odd_string(g, 24) };
-            case_of(u, &[n])
+            if u == "prop" {
+                prop_case(&[n], g.u64() % PTYPES)
+            } else {
+                case_of(u, &[n])
+            }
         }));
         out.extend(gen::draw(seed, "C08-pairs", tier.pick(2500, 60000), move |g: &mut G| {
             let u = *g.pick(&["prop", "enum", "def", "variant"]);
             let (a, b) = if g.chance(2, 3) { colliding_pair(g) } else { (odd_name(g), odd_name(g)) };
-            if a == b {
-                case_of(u, &[a])
+            let names = if a == b { vec![a] } else { vec![a, b] };
+            if u == "prop" {
+                prop_case(&names, g.u64() % PTYPES)
             } else {
-                case_of(u, &[a, b])
+                case_of(u, &names)
             }
         }));
         out
